@@ -516,7 +516,91 @@ def gen_case(rng, mode=None, force_many_voices=False, force_history=False):
     return case
 
 
-HIST_KINDS = ["score_setitem", "score_setitem", "score_listops", "score_unfold", "score_unfold", "edits", "edits", "pre_edits", "arg_edits", "arg_edits"]
+HIST_KINDS = ["score_setitem", "score_setitem", "score_listops", "score_unfold", "score_unfold", "edits", "edits", "pre_edits", "arg_edits", "arg_edits",
+              "view_edits", "view_edits", "view_edits"]
+# calls that only read a part (third hardening): whatever they compute or remember must not show at the merge
+VIEW_KINDS = ["number_of_staves", "clef_map", "note_array_staff", "note_array_full", "pretty", "save_musicxml", "save_mei", "time_maps",
+              "notes", "rest_array", "deepcopy"]
+STAFF_VIEWS = ("number_of_staves", "clef_map", "save_musicxml", "save_mei")      # the views that ask a part for its number of staves
+ATTR_TARGETS = {"note": ("KNote", "KGrace"), "rest": ("KRest",), "unpitched": ("KUnpitched",), "clef": ("KClef",), "direction": ("KDirection",),
+                "words": ("KWords",)}
+
+
+def do_view(p, what):
+    """One call that only reads the part (checked on generated parts: none of them changes an element or a time point)."""
+    import partitura
+    import numpy as np
+    import copy
+    import warnings
+    with warnings.catch_warnings():
+        warnings.simplefilter("ignore")
+        if what == "number_of_staves":
+            return p.number_of_staves
+        if what == "clef_map":
+            return p.clef_map(np.array([0, 1]))
+        if what == "note_array_staff":
+            return p.note_array(include_staff=True)
+        if what == "note_array_full":
+            return p.note_array(include_pitch_spelling=True, include_key_signature=True, include_time_signature=True,
+                                include_metrical_position=True, include_grace_notes=True, include_staff=True, include_divs_per_quarter=True)
+        if what == "pretty":
+            return p.pretty()
+        if what == "save_musicxml":
+            return partitura.save_musicxml(p, None)
+        if what == "save_mei":
+            return partitura.save_mei(p, None)
+        if what == "time_maps":
+            return (p.quarter_map(0), p.beat_map(0), p.inv_beat_map(0.0), p.time_signature_map(0), p.key_signature_map(0), p.measure_map(0),
+                    p.quarter_duration_map(0))
+        if what == "notes":
+            return (p.notes, p.notes_tied, p.rests, p.measures, p.first_point, p.last_point)
+        if what == "rest_array":
+            return p.rest_array(include_staff=True)
+        if what == "deepcopy":
+            return copy.deepcopy(p)
+    raise ValueError(what)
+
+
+def gen_view_edits(rng, parts, targets):
+    """Read-only views of a random subset of the inputs (number_of_staves, clef_map, note arrays, pretty, exporters to a string,
+    time maps, note lists), then attribute edits IN PLACE (staff / voice of notes, rests, unpitched notes, clefs, directions,
+    words -- no Part.add / Part.remove, so nothing tells the part that it changed), mostly to a value above everything the
+    part uses, now and then an edit through the API; views may come again between the edits."""
+    def views(k):
+        out = []
+        for w in rng.sample(VIEW_KINDS, k):
+            on = None if rng.random() < 0.5 else sorted(rng.sample(sorted(set(targets)), rng.randint(1, len(set(targets)))))
+            out.append({"op": "observe", "what": w, "on": on})
+        return out
+    nv = rng.choice([1, 2, 2, 3, 4])
+    eds = views(nv)
+    if rng.random() < 0.5 and not any(e["what"] in STAFF_VIEWS for e in eds):
+        eds.insert(rng.randrange(0, len(eds) + 1), {"op": "observe", "what": rng.choice(STAFF_VIEWS), "on": None})
+    if rng.random() < 0.3:
+        eds.append({"op": "observe", "what": rng.choice(["part_note_array", "score_note_array", "iter_parts", "single_merge"])})
+    for ne in range(rng.choice([1, 1, 2, 2, 3])):
+        # the first input most often: its numbers decide where every later input starts
+        pi = targets[0] if rng.random() < 0.45 else rng.choice(targets)
+        r = rng.random()
+        above = {"above": rng.choice([1, 1, 1, 2, 3])} if rng.random() < 0.7 else None
+        tgt = rng.choice(["note", "note", "note", "rest", "unpitched", "clef", "direction", "words", None])
+        if r < 0.55:
+            eds.append({"op": "staff", "p": pi, "k": rng.randrange(0, 50), "value": above or rng.choice([None, 1, 2, 3, 6]), "target": tgt})
+        elif r < 0.85:
+            eds.append({"op": "voice", "p": pi, "k": rng.randrange(0, 50), "value": above or rng.choice([1, 2, 3, 7, 8]),
+                        "target": tgt if tgt in ("note", "rest", "unpitched") else "note"})
+        elif r < 0.92:
+            eds.append({"op": "add", "p": pi, "el": {"cls": rng.choice(["Note", "Rest", "UnpitchedNote"]), "s": rng.randrange(0, 64), "dur": rng.randrange(1, 16),
+                                                      "voice": rng.choice([1, 2, 5]), "staff": rng.choice([None, 1, 2, 4]), "pitch": rng.randint(40, 90)}})
+            if rng.random() < 0.6:          # ... and the views again after the part was told about a change
+                eds += views(1)
+        elif r < 0.96:
+            eds.append({"op": "remove", "p": pi, "k": rng.randrange(0, 50)})
+        else:
+            eds.append({"op": "divs", "p": pi, "value": rng.choice([1, 2, 3, 4, 5, 6, 8, 9, 12])})
+        if rng.random() < 0.15:
+            eds += views(1)
+    return eds
 UNFOLD_HAZARDS = ("Repeat", "DaCapo", "Fine", "Segno", "Coda", "DalSegno", "ToCoda", "Ending")
 
 
@@ -562,10 +646,11 @@ def gen_hist_case(rng, mode=None, kind=None):
     case["hist_kind"] = kind
     parts = case["parts"]
     n = len(parts)
-    if kind in ("edits", "pre_edits"):
-        neff = n if kind == "edits" else n - case["pre"]["k"] - case["pre"].get("then", {}).get("k", 0) + 1
-        targets = list(range(neff)) if kind == "edits" else [0, 0, 0] + list(range(neff))
-        case["edits"] = gen_edits(rng, parts, targets)
+    if kind in ("edits", "pre_edits", "view_edits"):
+        neff = n if kind != "pre_edits" else n - case["pre"]["k"] - case["pre"].get("then", {}).get("k", 0) + 1
+        targets = list(range(neff)) if kind != "pre_edits" else [0, 0, 0] + list(range(neff))
+        views = kind == "view_edits" or (kind == "pre_edits" and rng.random() < 0.4)
+        case["edits"] = gen_view_edits(rng, parts, targets) if views else gen_edits(rng, parts, targets)
         return case
     layout = gen_layout(rng)
     spare_d = lambda: rng.choice([1, 2, 3, 4, 5, 6, 7, 8, 10, 12])
@@ -813,6 +898,24 @@ def corpus_cases():
                     "hist_kind": "edits", "edits": [{"op": "observe", "what": "part_note_array"}, {"op": "observe", "what": "single_merge"},
                                                     {"op": "add", "p": 0, "el": {"cls": "Note", "s": 4, "dur": 4, "voice": 3, "staff": 2, "pitch": 80}},
                                                     {"op": "divs", "p": 1, "value": 3}]})
+        # inputs looked at (number of staves, clef map, exporters, note arrays, maps), then the staff / voice of an element of an input that
+        # is not the last is changed IN PLACE to a number above everything that input used so far (no Part.add / remove), then the call
+        rich = [P(0, 4, M(4, 1) + [N(0, 4, 1, 1), N(4, 8, 1, 1, 62), N(8, 12, 2, 1, 48), N(12, 16, 2, 1, 43), R(0, 8, 2, 1),
+                                   {"cls": "Clef", "s": 0, "e": None, "staff": 1, "sign": "G"}, {"cls": "Clef", "s": 8, "e": None, "staff": 1, "sign": "F"},
+                                   {"cls": "ConstantLoudnessDirection", "s": 0, "e": None, "staff": 1}]),
+                P(1, 6, M(6, 1) + [N(0, 6, 1, 1, 67), N(6, 12, 1, 1, 69), N(12, 18, 1, None, 71), R(18, 24, 1, 1),
+                                   {"cls": "Words", "s": 6, "e": None, "staff": 1}, {"cls": "Clef", "s": 0, "e": None, "staff": 1, "sign": "G"}]),
+                P(2, 3, M(3, 1) + [N(3 * k, 3 * k + 3, 1 + k % 2, 1 + k % 2, 50 + k) for k in range(4)])]
+        V = lambda w, on=None: {"op": "observe", "what": w, "on": on}
+        A = lambda op, p_, k, by, tgt: {"op": op, "p": p_, "k": k, "value": {"above": by}, "target": tgt}
+        out.append({"mode": mode, "container": {"type": "list", "tree": [0, 1]}, "pickup": False, "parts": json.loads(json.dumps(rich[:2])),
+                    "hist_kind": "view_edits", "edits": [V("number_of_staves", [0]), A("staff", 0, 2, 1, "note"), A("staff", 0, 3, 1, "note")]})
+        out.append({"mode": mode, "container": {"type": "score", "tree": [0, [1, 2]]}, "pickup": False, "parts": json.loads(json.dumps(rich)),
+                    "hist_kind": "view_edits", "edits": [V("save_musicxml"), V("clef_map"), A("staff", 1, 0, 1, "clef"), A("voice", 0, 0, 1, "rest"),
+                                                         V("pretty", [1])]})
+        out.append({"mode": mode, "container": {"type": "tuple", "tree": [0, 1, 2]}, "pickup": False, "parts": json.loads(json.dumps(rich)),
+                    "hist_kind": "view_edits", "edits": [V("note_array_staff"), V("time_maps"), V("notes"), V("save_mei", [0, 1]), A("voice", 1, 1, 2, "note"),
+                                                         A("staff", 0, 0, 2, "direction"), A("staff", 1, 0, 1, "words")]})
         # a one-part list is merged (the part is returned as it is), then a second part is appended to its group
         out.append({"mode": mode, "container": {"type": "list", "tree": [[0]]}, "pickup": False, "parts": json.loads(json.dumps(three[:2])),
                     "hist_kind": "arg_edits", "arg_edits": [["append", 0, 1]]})
@@ -881,6 +984,14 @@ def apply_edits(case, inp):
     nadd = 0
     for ed in case["edits"]:
         op = ed["op"]
+        if op == "observe" and ed["what"] in VIEW_KINDS:
+            for k in (range(len(parts)) if ed.get("on") is None else sorted({j % len(parts) for j in ed["on"]})):
+                try:
+                    do_view(parts[k], ed["what"])
+                    log.append((k, "view", ed["what"], True))
+                except Exception:       # (a view a part does not support, e.g. the MEI exporter on an unpitched note: still a read)
+                    log.append((k, "view", ed["what"], False))
+            continue
         if op == "observe":
             try:
                 if ed["what"] == "part_note_array":
@@ -920,11 +1031,20 @@ def apply_edits(case, inp):
             log.append((pi, "remove", oid))
         elif op in ("voice", "staff"):
             cand = [o for o in objs[pi] if kind_of(o) in (GENERIC_KINDS if op == "voice" else STAFFED_KINDS) and oid_of[id(o)] % 1000 < 900]
+            pref = [o for o in cand if kind_of(o) in ATTR_TARGETS.get(ed.get("target"), ())]
+            cand = pref or cand
             if not cand:
                 continue
             o = cand[ed["k"] % len(cand)]
-            setattr(o, op, ed["value"])
-            log.append((pi, op, oid_of[id(o)], ed["value"]))
+            value = ed["value"]
+            if isinstance(value, dict):
+                # above everything the part uses NOW (missing staff = 1)
+                if op == "voice":
+                    value = max([int(x.voice) for x in objs[pi] if kind_of(x) in GENERIC_KINDS and x.voice is not None] + [0]) + value["above"]
+                else:
+                    value = max([int(x.staff or 1) for x in objs[pi] if kind_of(x) in STAFFED_KINDS] + [1]) + value["above"]
+            setattr(o, op, value)
+            log.append((pi, op, oid_of[id(o)], value))
         elif op == "divs":
             p.set_quarter_duration(0, ed["value"])
             inp["divs"][pi] = ed["value"]
@@ -1543,6 +1663,15 @@ def shrink_case(case, fclass, budget=80):
                 break
         else:
             break
+    if case.get("edits") and len(case["edits"]) > 1:
+        # the history: as few reads and edits as still show the failure
+        try:
+            keep = core.ddmin(list(range(len(case["edits"]))), lambda keep: still(dict(case, edits=[case["edits"][i] for i in sorted(keep)])))
+            cand = dict(case, edits=[case["edits"][i] for i in sorted(keep)])
+            if still(cand):
+                case = cand
+        except Exception:
+            pass
     for pi in range(len(case["parts"])):
         spec = case["parts"][pi]
         if len(spec["elems"]) < 2:
@@ -1633,6 +1762,8 @@ def features(case):
         f.add("history_score_op:" + op[0] + (":" + op[1] if op[0] in ("unfold", "observe") else ""))
     for ed in case.get("edits", []):
         f.add("history_edit:" + ed["op"] + (":" + ed["what"] if ed["op"] == "observe" else ""))
+        if ed["op"] in ("voice", "staff") and isinstance(ed["value"], dict):
+            f.add("history_edit:%s_in_place_above_everything_in_use" % ed["op"])
     for ed in case.get("arg_edits", []):
         f.add("history_arg_edit:%s_%s" % (ed[0], "list" if ed[1] == "top" else "group"))
     if voiceless(case):
@@ -1756,6 +1887,37 @@ def _on_vtalrm(signum, frame):
     raise CpuTimeout()
 
 
+def edit_stats(obs):
+    """What the history of reads and edits really did (for the measured distribution): attribute edits in place on an
+    input that is not the last, after a view of that input, with nothing in between that tells the part it changed."""
+    tags = []
+    flat = obs.get("flat") or []
+    kind_by_oid = {b["oid"]: b["kind"] for b in obs.get("ps0") or []}
+    top = {}
+    for b in obs.get("ps0") or []:
+        if b["kind"] in STAFFED_KINDS:
+            top[(b["part"], "staff")] = max(top.get((b["part"], "staff"), 1), b["staff"] or 1)
+        if b["kind"] in GENERIC_KINDS and b["voice"] is not None:
+            top[(b["part"], "voice")] = max(top.get((b["part"], "voice"), 0), b["voice"])
+    seen = {}
+    for ed in obs["edit_log"]:
+        pi = ed[0]
+        if ed[1] == "view":
+            seen.setdefault(pi, set()).add(ed[2])
+            tags.append("view:%s%s" % (ed[2], "" if ed[3] else "(raised)"))
+        elif ed[1] in ("add", "remove"):
+            seen[pi] = set()
+        elif ed[1] in ("voice", "staff"):
+            t = "in_place:%s:%s" % (ed[1], kind_by_oid.get(ed[2], "?"))
+            tags.append(t)
+            if ed[3] is not None and ed[3] > top.get((pi, ed[1]), 1) and seen.get(pi):
+                where = "non_last_input" if (pi in flat and flat.index(pi) < len(flat) - 1) else "last_input"
+                tags.append("in_place_%s_above_max_after_view:%s" % (ed[1], where))
+                if ed[1] == "staff" and seen[pi] & set(STAFF_VIEWS):
+                    tags.append("in_place_staff_above_max_after_staff_view:%s" % where)
+    return tags
+
+
 def work_case(item):
     """One case in a worker process: oracle, Coq term, what the parent needs (plain data only)."""
     import signal
@@ -1775,6 +1937,8 @@ def work_case(item):
         slim = {}
         if obs:
             slim = {k: obs[k] for k in ("detail", "soft", "expected_raise", "outside_quantifier", "quarters_compared", "skip", "exc") if k in obs}
+            if obs.get("edit_log") is not None:
+                slim["hist_stats"] = edit_stats(obs)
             view = json.dumps({"exc": obs.get("exc"), "merged": sorted(obs.get("merged", []), key=lambda m: m["oid"]),
                                "idx": obs.get("returned_idx")}, sort_keys=True, default=str)
             if not fclass and "skip" not in obs and not obs.get("outside_quantifier") and not (obs.get("expected_raise") and has_history(case)):
@@ -1826,7 +1990,7 @@ def report(ctx, case, fclass, msg, obs, soft_detail=None):
             ", the result merged with the next %d in %r mode" % (small["pre"]["then"]["k"], small["pre"]["then"]["mode"])) if small["pre"].get("then") else ""))
          if small.get("pre") else "") +
         ((", score history %s" % json.dumps(small["score_hist"]).replace(" ", "")) if small.get("score_hist") else "") +
-        ((", inputs edited before the call: %s" % json.dumps([e_ for e_ in small["edits"] if e_["op"] != "observe"]).replace(" ", "")) if small.get("edits") else "") +
+        ((", inputs read and edited before the call: %s" % json.dumps([e_ for e_ in small["edits"] if e_["op"] != "observe" or e_["what"] in VIEW_KINDS]).replace(" ", "")) if small.get("edits") else "") +
         ((", argument edited after a first look: %s" % json.dumps(small["arg_edits"]).replace(" ", "")) if small.get("arg_edits") else ""),
         m2 or msg), replay_obj)
 
@@ -1864,7 +2028,7 @@ def run(ctx):
     # edited before the call, a merged part edited and merged again, arguments edited after a first look
     for mode in MODES:
         for kind in sorted(set(HIST_KINDS)):
-            for k in range((3 if kind.startswith("score") else 2) if quick else 24):
+            for k in range((3 if kind.startswith("score") else 12 if kind == "view_edits" else 2) if quick else (60 if kind == "view_edits" else 24)):
                 cases.append(("history", gen_hist_case(rng, mode=mode, kind=kind)))
     ss = small_scope_cases()
     if quick:
@@ -1893,7 +2057,7 @@ def run(ctx):
     items = [(ci, origin, case) for ci, (origin, case) in enumerate(cases + again)]
     pool = multiprocessing.get_context("fork").Pool(max(1, min(core.NJOBS if hasattr(core, "NJOBS") else int(os.environ.get("VERIF_JOBS", "8")), 8)))
     results = pool.imap(work_case, items, chunksize=2)
-    ok, why = ctx.coq_props(expect_min=45)
+    ok, why = ctx.coq_props(expect_min=47)
     if not ok:
         ctx.log("coq_props failed: " + why[:2000])
     for (ci, origin, case), (fclass, msg, obs, term, perr, view) in zip(items, results):
@@ -1915,6 +2079,8 @@ def run(ctx):
                 fclass, msg = "order_dependent", "the same inputs merged again later in the same process are observed differently (state kept between calls)"
         for f in sorted(features(case)):
             ctx.count("feature:" + f)
+        for t in (obs or {}).get("hist_stats", []):
+            ctx.count("history_done:" + t + ":" + (case["mode"] if "after" in t else "any_mode"))
         ctx.nontrivial(case)
         for sf, sm, sd in (obs or {}).get("soft", [])[:1]:
             ctx.count("oracle:" + sf)
